@@ -55,6 +55,18 @@ func genPoint(t *rapid.T, label string, near []pt) pt {
 	return pt{rapid.Float64Range(-180, 180).Draw(t, label+".lon"), math.Asin(u) * 180 / math.Pi}
 }
 
+// destinationPoint: the point at distance meters from c along the initial bearing (degrees
+// clockwise from north) on the mean sphere.
+func destinationPoint(c pt, bearingDeg, meters float64) pt {
+	const r = 6371008.8
+	d, th := meters/r, bearingDeg*math.Pi/180
+	la1, lo1 := c.Lat*math.Pi/180, c.Lon*math.Pi/180
+	la2 := math.Asin(math.Sin(la1)*math.Cos(d) + math.Cos(la1)*math.Sin(d)*math.Cos(th))
+	lo2 := lo1 + math.Atan2(math.Sin(th)*math.Sin(d)*math.Cos(la1), math.Cos(d)-math.Sin(la1)*math.Sin(la2))
+	lon := math.Mod(lo2*180/math.Pi+540, 360) - 180
+	return pt{lon, math.Max(-90, math.Min(90, la2*180/math.Pi))}
+}
+
 func haversineKm(a, b pt, radiusKm float64) float64 {
 	la1, la2 := a.Lat*math.Pi/180, b.Lat*math.Pi/180
 	dla := la2 - la1
@@ -206,10 +218,37 @@ func genShape(t *rapid.T, label string) (shape, []pt) {
 			// log-uniform between 1 m and half the circumference
 			s.Meters = math.Pow(10, rapid.Float64Range(0, 7.3).Draw(t, label+".rexp"))
 		}
+		if rapid.IntRange(0, 2).Draw(t, label+".wide") == 0 {
+			// a mid- or high-latitude circle that reaches most of the way to its pole without
+			// containing it: its longitude extent is far wider than radius/cos(latitude)
+			la := rapid.Float64Range(30, 80).Draw(t, label+".wlat")
+			if rapid.Bool().Draw(t, label+".wsouth") {
+				la = -la
+			}
+			s.Center = pt{rapid.Float64Range(-180, 180).Draw(t, label+".wlon"), la}
+			s.Meters = rapid.Float64Range(0.5, 0.95).Draw(t, label+".wfrac") * (90 - math.Abs(la)) * 111195.0
+		}
 		// ring of points around the circle at 0.9r and 1.1r
 		var near []pt
 		dlat := s.Meters / 111195.0
 		near = append(near, s.Center, pt{s.Center.Lon, math.Max(-90, math.Min(90, s.Center.Lat+0.9*dlat))}, pt{s.Center.Lon, math.Max(-90, math.Min(90, s.Center.Lat-1.1*dlat))})
+		// ... and towards its east and west extremes (where the longitude width of the search
+		// rectangle decides), just inside and just outside the rim
+		for _, bearing := range []float64{60, 90, 120, 240, 270, 300} {
+			near = append(near, destinationPoint(s.Center, bearing, 0.93*s.Meters), destinationPoint(s.Center, bearing, 1.07*s.Meters))
+		}
+		// ... and, for circles that contain no pole, around the two points where the rim reaches
+		// its extreme longitudes (north-east / north-west of a northern centre, not due east):
+		// latitude asin(sin(lat)/cos(d)), longitude offset asin(sin(d)/cos(lat))
+		if d, la := s.Meters/6371008.8, s.Center.Lat*math.Pi/180; d < math.Pi/2 && math.Abs(la)+d < math.Pi/2 {
+			lt := math.Asin(math.Sin(la)/math.Cos(d)) * 180 / math.Pi
+			dl := math.Asin(math.Sin(d)/math.Cos(la)) * 180 / math.Pi
+			for _, f := range []float64{0.8, 0.9, 1.1} {
+				for _, sg := range []float64{-1, 1} {
+					near = append(near, pt{math.Mod(s.Center.Lon+sg*f*dl+540, 360) - 180, lt})
+				}
+			}
+		}
 		return s, near
 	default:
 		s := shape{Kind: "polygon"}
@@ -247,7 +286,7 @@ func genShape(t *rapid.T, label string) (shape, []pt) {
 
 func TestC18Geo(t *testing.T) {
 	ev := Ev("C18")
-	ev.SetRule("rapid: 2-4 shapes per case (boxes incl. date-line crossing, pole touching, thin; circles 1 m .. 19500 km (fixed ladder or log-uniform; beyond a quarter of the circumference the circle is larger than a hemisphere) incl. date line and poles; star-shaped polygons with 3-8 vertices, 0.5-29 degrees in radius, listed counter-clockwise or clockwise) and 6-20 documents with 0-3 geopoints each (uniform on the sphere, specials at +-180/+-90, points at 1e-5..5 degrees from the shape's vertices/centre) on upsidedown, scorch and scorch+s2; " +
+	ev.SetRule("rapid: 2-4 shapes per case (boxes incl. date-line crossing, pole touching, thin; circles 1 m .. 19500 km (fixed ladder or log-uniform; beyond a quarter of the circumference the circle is larger than a hemisphere) incl. date line and poles, one circle in three reaching 50-95% of the way from a centre at |lat| 30-80 to its pole without containing it; star-shaped polygons with 3-8 vertices, 0.5-29 degrees in radius, listed counter-clockwise or clockwise) and 6-20 documents with 0-3 geopoints each (uniform on the sphere, specials at +-180/+-90, points at 1e-5..5 degrees from the shape's vertices/centre and, for circles, from rim anchors: due north/south, bearings 60-120/240-300 at 0.93r and 1.07r, and around the rim's extreme-longitude points) on upsidedown, scorch and scorch+s2; " +
 		"oracle = exact geometry with a margin band (box/polygon 2e-6 deg; circle haversine with both ellipsoid radii, 0.5% + 1 m): Yes docs must be hits, No docs must not; point encoding round trip within one quantum; geo-distance sort is non-decreasing within the same band; " +
 		"non-trivial = >=1 Yes and >=1 No document and >=1 multi-valued document")
 	ev.Assume("points inside the margin band are not judged (stated resolution of the encoding)")
